@@ -54,9 +54,36 @@ Example C02_check_rejects_unchecked_use :
 Proof. vm_compute. split; reflexivity. Qed.
 Print Assumptions C02_check_rejects_unchecked_use.
 
-(* To be linked when installed (see docs/C02.md):
-     C15  LenInfer   reduce_total, merge_total
-     C18  Revm       translate_total
-     C17  Utf16Fix   fix_total
-     C21  Collisions verify_total
+(** ** Linked from C15 and C17: crash-bearing generator cores are total.
+
+    The models and proofs belong to those properties (where they are also tied to the
+    code); re-stated here because they are the pre-conditions / assertions behind the
+    schema generators ([infer_for_schema]) and the UTF-16 targets. *)
+From Coq Require Import ZArith.
+From Acg Require Import Base.Str Model.InferExpr Model.LenInfer Proofs.InferLen
+  Model.Utf16Tree Model.Utf16Fix Proofs.Utf16Lang.
+
+(** [LenConstraint.__init__]'s pre-condition [0 < min <= max] is never violated by
+    [_reduce_constraints] ... *)
+Theorem C02_len_reduce_total : forall cs k, reduce cs <> Crash k.
+Proof. exact reduce_total. Qed.
+Print Assumptions C02_len_reduce_total.
+
+(** ... nor by merging along inheritance, for ranges the added check does not flag. *)
+Theorem C02_len_merge_total : forall a b,
+  wf_opt a -> wf_opt b -> len_contradict a b = false ->
+  exists c, merge_len (E := unit) a b = Ok c /\ wf_opt c.
+Proof. exact (merge_total unit). Qed.
+Print Assumptions C02_len_merge_total.
+
+(** No assertion of [fix_for_utf16_regex_in_place] can fail on a tree the front end
+    accepts. *)
+Theorem C02_fix_utf16_total : forall u,
+  accepted_union u = true -> exists u', fix_utf16 u = Ok u'.
+Proof. exact fix_utf16_total. Qed.
+Print Assumptions C02_fix_utf16_total.
+
+(* Still to be linked when their totality theorems are installed (see docs/C02.md):
+     C18  Revm        translate_total (C18 states correctness, [C18_translate_correct_partial])
+     C21  Collisions  verify_total
    and the per-target [execute] skeletons of C03 (Gen/GenSkeletons.v). *)
